@@ -665,6 +665,7 @@ class Interp:
                 self.nonnull(obj, attr)
                 ty = ci.fields[attr]
                 self.st.put(cn, attr, obj.t, self.term(self.coerce(val, ty), ty))
+                self.ctx.unit.after_field_store(self, cn, attr, obj)  # ghost code attached to a store (unit hook)
                 return
             s = self.find_setter(cn, attr)
             if s is not None:
